@@ -78,6 +78,7 @@ inductive Op where
   | nestDec
   -- literal registers
   | litBegin
+  | litBeginAtTok
   | litCut
   | litMarkEnd
   | litResolve (back : Nat)
@@ -173,7 +174,7 @@ def step (cfg : Cfg) : (o : Op) → Lexer → Resp o × Lexer
   | .nesting, L => (L.nesting, L)
   | .modeDepth, L => (L.modesR.length, L)
   | .hasMark, L => (L.mark.isSome, L)
-  | .litIsEmpty, L => (L.lit.start == L.lit.stop, L)
+  | .litIsEmpty, L => (!L.lit.seen, L)
   | .pendingText, L => L.pendingText
   | .pendingTextToMark, L =>
       L.pendingTextFrom L.tok.byte (match L.mark with | some m => m.byte | none => L.curByte) .InternalErrorNoTokenText
@@ -240,15 +241,21 @@ def step (cfg : Cfg) : (o : Op) → Lexer → Resp o × Lexer
   | .nestDec, L => ((), { L with nesting := L.nesting - 1 })
   | .litBegin, L =>
       let n := L.litsLen
-      ((), { L with lit := { start := n, stop := n, lastEnd := L.curByte } })
+      ((), { L with lit := { start := n, stop := n, lastEnd := L.curByte, seen := false } })
+  | .litBeginAtTok, L =>
+      -- `last_lit_end_byte_offset = self.cur_token_byte_offset` (the dispatcher may already have
+      -- consumed the first characters of the token)
+      let n := L.litsLen
+      ((), { L with lit := { start := n, stop := n, lastEnd := L.tok.byte, seen := false } })
   | .litCut, L =>
       let ((a, b), L) := L.addStringLiteralFromSrc cfg L.lit.lastEnd none
-      ((), { L with lit := { L.lit with start := min L.lit.start a, stop := b } })
+      ((), { L with lit := { L.lit with start := min L.lit.start a, stop := b, seen := true } })
   | .litMarkEnd, L => ((), { L with lit := { L.lit with lastEnd := L.curByte } })
   | .litResolve back, L =>
       -- `resolve_string_literal_payload(lit_start_idx, lit_end_idx, last_lit_end_byte_offset,
-      --    Some(cur_byte_offset - back))`
-      if L.lit.start == L.lit.stop then ((), { L with payReg := .none })
+      --    Some(cur_byte_offset - back), seen_escape)`
+      let L := L.dassert cfg (L.lit.seen || L.lit.start == L.lit.stop) "assertion failed: seen_escape || lit_start_idx == cur_lit_end_idx"
+      if !L.lit.seen then ((), { L with payReg := .none })
       else
         let ((_, e), L) := L.addStringLiteralFromSrc cfg L.lit.lastEnd (some (L.curByte - back))
         ((), { L with payReg := .str L.lit.start e })
